@@ -278,7 +278,7 @@ PROPS = {
                                 "the Lean theorems cover the stream state machine, the wire codec, the reader and the dispatch decision",
                                 "quiescence detection by stop-the-world goroutine snapshots; transport = the director's in-memory pipe "
                                 "(bytes in order, unmodified, arbitrary pieces and delays; Close/failure make pending and later calls fail)"],
-        assumptions=['the scripted handler and the client read payloads only through the public API'],
+        assumptions=['the scripted handler and the client read payloads only through the public API', 'manager model theorems (Drpc.Props.ManagerSys) hold over ReachP / ReachServe / ReachClient: fresh stream ids, callers of one role per manager, an arriving invoke has an id above the last forwarded one, (server) one NewServerStream call at a time; the deadlock theorems assume EnvQuiet: every stream the manager created has finished and sent its token (discharged for terminated streams, unless an operation is parked in the transport / Marshal / Unmarshal, by the stream model: terminated_quiescent_all_done) and a closed transport fails a pending read; stream.Cancel is assumed not to block on the stream\'s transition lock (the known C04 findings are exactly the cases where it does)'],
     ),
     "C04": dict(
         modules=['Drpc.Props.C04', 'Drpc.Tie.Manager'],
@@ -298,7 +298,7 @@ PROPS = {
                                 "the Lean theorems cover the stream state machine, the wire codec, the reader and the dispatch decision",
                                 "quiescence detection by stop-the-world goroutine snapshots; transport = the director's in-memory pipe "
                                 "(bytes in order, unmodified, arbitrary pieces and delays; Close/failure make pending and later calls fail)"],
-        assumptions=['the transport keeps moving bytes (flow mode) while the probe runs'],
+        assumptions=['the transport keeps moving bytes (flow mode) while the probe runs', 'manager model theorems (Drpc.Props.ManagerSys) hold over ReachP / ReachServe / ReachClient: fresh stream ids, callers of one role per manager, an arriving invoke has an id above the last forwarded one, (server) one NewServerStream call at a time; the deadlock theorems assume EnvQuiet: every stream the manager created has finished and sent its token (discharged for terminated streams, unless an operation is parked in the transport / Marshal / Unmarshal, by the stream model: terminated_quiescent_all_done) and a closed transport fails a pending read; stream.Cancel is assumed not to block on the stream\'s transition lock (the known C04 findings are exactly the cases where it does)'],
     ),
     "C12": dict(
         modules=['Drpc.Props.C12', 'Drpc.Props.Manager', 'Drpc.Props.ManagerSys', 'Drpc.Props.Serve', 'Drpc.Tie.Manager'],
@@ -308,7 +308,7 @@ PROPS = {
                                 "the Lean theorems cover the stream state machine, the wire codec, the reader and the dispatch decision",
                                 "quiescence detection by stop-the-world goroutine snapshots; transport = the director's in-memory pipe "
                                 "(bytes in order, unmodified, arbitrary pieces and delays; Close/failure make pending and later calls fail)"],
-        assumptions=['goroutine census by runtime.Stack at quiescence'],
+        assumptions=['goroutine census by runtime.Stack at quiescence', 'manager model theorems (Drpc.Props.ManagerSys) hold over ReachP / ReachServe / ReachClient: fresh stream ids, callers of one role per manager, an arriving invoke has an id above the last forwarded one, (server) one NewServerStream call at a time; the deadlock theorems assume EnvQuiet: every stream the manager created has finished and sent its token (discharged for terminated streams, unless an operation is parked in the transport / Marshal / Unmarshal, by the stream model: terminated_quiescent_all_done) and a closed transport fails a pending read; stream.Cancel is assumed not to block on the stream\'s transition lock (the known C04 findings are exactly the cases where it does)', 'Serve model (Drpc.Props.Serve): a ServeOne whose context is done returns (serve_completes hypothesis)'],
     ),
     "C01": dict(
         modules=["Drpc.Props.C01", "Drpc.Tie.C08", "Drpc.Tie.C09", "Drpc.Tie.Manager"],
@@ -391,7 +391,7 @@ PROPS = {
              "over whole connections (several streams, cancels, faults) satisfies the same, plus: never two reads in flight, the "
              "transport closed at most once per manager",
         trusted=E2E_TRUST,
-        assumptions=["the succession of streams on one connection (next stream only after the previous is finished) is explored by "
+        assumptions=["manager model theorems (Drpc.Props.ManagerSys) hold over ReachP / ReachServe / ReachClient: fresh stream ids, callers of one role per manager, an arriving invoke has an id above the last forwarded one, (server) one NewServerStream call at a time; the deadlock theorems assume EnvQuiet: every stream the manager created has finished and sent its token (discharged for terminated streams, unless an operation is parked in the transport / Marshal / Unmarshal, by the stream model: terminated_quiescent_all_done) and a closed transport fails a pending read; stream.Cancel is assumed not to block on the stream\'s transition lock (the known C04 findings are exactly the cases where it does)", "the succession of streams on one connection (next stream only after the previous is finished) is explored by "
                      "the e2e suite; the per-stream invariants are theorems"],
     ),
 }
